@@ -1,7 +1,6 @@
 """C07 — sub-selection, padding and resampling keep every value at its physical position."""
 import itertools
 import math
-import os
 import random
 from fractions import Fraction
 
@@ -36,7 +35,6 @@ BUDGET = {"quick": 85, "thorough": 900}
 
 NAMES = fieldio.NAMES
 MODES = ["constant", "edge", "wrap", "symmetric", "reflect"]
-ASSUME_KNOWN = set(filter(None, os.environ.get("VERIF_C07_ASSUME_KNOWN", "").split(",")))  # self-test switch only
 
 
 def FR(x):
@@ -695,11 +693,61 @@ def run_sel(ctx, op, r, fail):
         if rev[0] != "ok" or not (rev[1].mesh == g.mesh and np.array_equal(rev[1].array, g.array)
                                   and np.array_equal(rev[1].valid, g.valid)):
             fail(f"{what}: reversed bounds give a different result")
+    # subregions of the result: exactly those overlapping the selection by whole cells, clipped to it
+    if isinstance(g, df.Field) and not subs_oracle(ctx, op, ax, g.mesh, fail, what):
+        return
     # Mesh.sel agrees with the field's mesh
     if r["mesh"][0] == "ok" and isinstance(g, df.Field):
         gm = r["mesh"][1]
         if not (gm == g.mesh and sub_json(gm) == sub_json(g.mesh)):
             fail(f"{what}: Mesh.sel and Field.sel(...).mesh differ")
+
+
+def subs_oracle(ctx, op, ax, gm, fail, what):
+    """plane: a subregion is kept iff it contains the selected layer (axis removed); range: iff it shares at least one
+    whole cell with the kept cells, and it is clipped to them; other axes unchanged"""
+    lo, c = ctx.lo[ax], ctx.c[ax]
+    arg = op["arg"]
+    plane = arg is None or "point" in arg
+    if plane:
+        kept_axes = [b for b in range(ctx.ndim) if b != ax]
+        x = FR(ctx.mesh.region.center[ax]) if arg is None else FR(arg["point"])
+        k1 = k2 = None
+    else:
+        kept_axes = list(range(ctx.ndim))
+        k1 = round((FR(gm.region.pmin[ax]) - lo) / c)
+        k2 = round((FR(gm.region.pmax[ax]) - lo) / c) - 1
+    expect = {}
+    for name, s in ctx.mesh.subregions.items():
+        s1 = round((FR(s.pmin[ax]) - lo) / c)
+        s2 = round((FR(s.pmax[ax]) - lo) / c)
+        if plane:
+            q = (x - lo) / c
+            if ctx.ambiguous(ax, x) and (abs(q - s1) < Fraction(1, 10**6) or abs(q - s2) < Fraction(1, 10**6)):
+                expect[name] = None  # the layer itself is decided by rounding at this face
+                continue
+            kk = min(max(math.floor(q), 0), ctx.n[ax] - 1)
+            if s1 <= kk < s2:
+                expect[name] = [(FR(s.pmin[b]), FR(s.pmax[b])) for b in kept_axes]
+        else:
+            a1, a2 = max(s1, k1), min(s2, k2 + 1)
+            if a1 < a2:
+                expect[name] = [((lo + a1 * c, lo + a2 * c) if b == ax else (FR(s.pmin[b]), FR(s.pmax[b]))) for b in kept_axes]
+    got = {name: [(FR(s.pmin[b]), FR(s.pmax[b])) for b in range(len(kept_axes))] for name, s in gm.subregions.items()}
+    for name in set(expect) | set(got):
+        if name in expect and expect[name] is None:
+            continue
+        if (name in expect) != (name in got):
+            fail(f"{what}: subregion {name} {'dropped' if name in expect else 'kept'}; it {'shares' if name in expect else 'does not share'} "
+                 f"whole cells with the selection")
+            return False
+        for gb, ((e1, e2), (g1, g2)) in enumerate(zip(expect[name], got[name])):
+            sl = ctx.slack(kept_axes[gb])
+            if abs(e1 - g1) > sl or abs(e2 - g2) > sl:
+                fail(f"{what}: subregion {name} along result axis {gb} is [{float(g1)}, {float(g2)}], the overlap with the selection is "
+                     f"[{float(e1)}, {float(e2)}]")
+                return False
+    return True
 
 
 def sub_json(m):
@@ -897,15 +945,6 @@ RUNNERS = {"sel": run_sel, "getname": run_getitem, "getregion": run_getitem, "r2
            "resample": run_resample}
 
 
-def classify(text):
-    """id of the (candidate) known finding a failure text belongs to"""
-    if "[box-touches-upper-boundary]" in text and "IndexError" in text:
-        return "D71"
-    if "[range-selection-next-to-subregion-face]" in text and "Subregion" in text:
-        return "D72"
-    return None
-
-
 def run_impl(case):
     obs = {"oracle": [], "tags": [f"regime:{case['regime']}", f"fam:{case['fam']}"], "res": []}
     try:
@@ -929,9 +968,6 @@ def run_impl(case):
         RUNNERS[op["op"]](ctx, op, r, fails.append)
         for t in fails:
             t = f"op {k}: {t}"
-            if case["regime"] == "tol" and classify(t) in ASSUME_KNOWN:
-                r["assumed_known"] = True
-                continue
             obs["oracle"].append(t)
         obs["res"].append(r)
         obs["tags"].append("op:" + op.get("tag", op["op"]).split("-")[0] + ":" + (r.get("expect") or "any"))
@@ -1088,8 +1124,6 @@ def compare(case, obs, rs):
         resp = rs[pos:pos + NREQ[op["op"]]]
         pos += NREQ[op["op"]]
         name = f"op {k} {op['op']}"
-        if r.get("assumed_known"):
-            continue
         kind = op["op"]
         d0 = len(dis)
         if kind == "sel":
@@ -1101,17 +1135,7 @@ def compare(case, obs, rs):
                 xs = [ctx.mesh.region.center[ax]] if arg is None else ([arg["point"]] if "point" in arg else list(arg["range"]))
             amb = ax is not None and any(ctx.ambiguous(ax, x) for x in xs)
             is_range = isinstance(arg, dict) and "range" in arg
-            # a subregion face within tolerance of (but not exactly on) an outer face of a range selection: the clipped
-            # subregion is degenerate in exact arithmetic; the model's verdict there is not binding
             near_sub = False
-            if not ctx.exact and is_range and ax is not None and case.get("subs") and "ok" in resp[0]:
-                k1, k2 = resp[0]["ok"]["k"]
-                outer = {k1, k2 + 1} | ({k1 - 1, k1 + 1, k2, k2 + 2} if amb else set())
-                for sname, sa, sb in case["subs"]:
-                    for v in (sa[ax], sb[ax]):
-                        q = (FR(v) - ctx.lo[ax]) / ctx.c[ax]
-                        if round(q) in outer and abs(q - round(q)) <= Fraction(1, 10**6):
-                            near_sub = True
             for key, rp in zip(("conv", "mesh", "field"), resp):
                 if r[key][0] != okerr(rp):
                     if near_sub and key != "conv" and r[key][0] == "ok":
@@ -1220,9 +1244,9 @@ def nontrivial(case, obs):
 
 
 def known(case, text):
-    if case.get("regime") != "tol":
-        return None
-    return classify(text)
+    # D71 (box touching the upper boundary) and D72 (range next to a subregion face) are fixed in /repo:
+    # corpus cases 06/07 are regression cases now; C07 has no open finding
+    return None
 
 
 def search(case, rng):
